@@ -1,13 +1,159 @@
-"""Directed families around the triggers of recorded findings (filled in below)."""
+"""Directed families around the triggers of recorded findings.
+
+Ordinary (clean) runs never pull the trigger of a recorded finding.  These families do exactly
+that, in small scenario shapes where the trigger is the only fault, with steering switched off
+(``clean: False``) and all oracles of the property strict.  A violation found here carries the
+finding's signature; it is reported as KNOWN-FINDING only if /verif/known_findings.json lists that
+(property, signature) *and* the oracle that fired is among the oracles recorded for it - anything
+else that fails in a hazard run is an ordinary VIOLATION.
+"""
+from __future__ import annotations
+
+import copy
+import random
+
+from .poolsim import run_sim
+from .util import subseed, known_entry, load_known, VERIF
+
+# finding -> properties whose checks run the family
+FAMILIES = {
+    "F-EARLY": ("C02", "C03", "C05", "C06", "C07", "C08", "C12", "C14"),
+    "F-LOCK": ("C04", "C08"),
+}
+QUICK_N = {"F-EARLY": 120, "F-LOCK": 80}
+THOROUGH_N = {"F-EARLY": 1500, "F-LOCK": 800}
 
 
 def units(prop, tier, seed):
-    return ()
+    for e in load_known()["known"]:
+        if e["property"] == prop and e.get("witness") and e["id"] in FAMILIES:
+            yield ("witness", e["witness"])
+    for tag, props in FAMILIES.items():
+        if prop in props:
+            n = QUICK_N[tag] if tier == "quick" else THOROUGH_N[tag]
+            for i in range(n):
+                yield (tag, subseed(seed, prop, tag, i))
+
+
+def _early_run(rng, prop):
+    cls = "S" if (prop == "C14" or rng.random() < 0.3) else "T"
+    if prop in ("C05", "C08", "C12"):
+        cls = "T"
+    size = rng.choice([1, 2, 3, 4, None])
+    cbs = [None, "s", "a"]
+    pcfg = {"cls": cls, "size": size}
+    steps = []
+    if cls == "S":
+        pcfg.update({"fk": "sync", "ecb": rng.choice(cbs), "ccb": rng.choice(cbs), "sc": [{"g": 1}]})
+        steps.append({"op": "spawn", "p": 0, "r": 1, "kind": "start", "num": rng.choice([1, 2, 3, 4])})
+    else:
+        if prop == "C05":
+            kind = "map"
+        elif prop in ("C08", "C12"):
+            kind = rng.choice(["map", "starmap", "doublestarmap"])   # keep F-LOCK's trigger out of this family
+        else:
+            kind = rng.choice(["apply", "apply", "map", "starmap"])
+        st = {"op": "spawn", "p": 0, "r": 1, "kind": kind, "fk": "sync", "ecb": rng.choice(cbs),
+              "ccb": rng.choice(cbs), "sc": [{"g": 1}]}
+        if kind == "apply":
+            st["num"] = rng.choice([1, 2, 3, 4])
+        else:
+            st["elems"] = [0] * rng.choice([2, 3, 4, 6])
+            st["nc"] = rng.choice([1, 2, 3])
+        steps.append(st)
+    if rng.random() < 0.3 and cls == "T" and prop not in ("C08", "C12"):
+        steps.append({"op": "spawn", "p": 0, "r": 2, "kind": "apply", "num": 1, "sc": [{"g": 1}], "ecb": "s"})
+    steps.append({"op": "run", "n": rng.choice([1, 1, 2, 2, 3, 4, 5, 7])})
+    c = rng.random()
+    if prop == "C14" or (cls == "S" and c < 0.4):
+        steps.append({"op": "stop", "p": 0, "n": rng.choice([1, 2, 5])})
+    elif prop == "C06" or c < 0.55:
+        steps.append({"op": "cancel", "p": 0, "ids": [["t", 1, k] for k in rng.sample(range(4), rng.choice([1, 2]))]})
+    elif c < 0.8:
+        steps.append({"op": "cancel_group", "p": 0, "r": 1})
+    else:
+        steps.append({"op": "cancel_all", "p": 0})
+    steps.append({"op": "idle"})
+    if prop in ("C08", "C12"):
+        steps.append({"op": "gather", "p": 0, "rex": 0})
+    elif rng.random() < 0.3:
+        steps.append({"op": "flush", "p": 0, "rex": 0})
+    steps.append({"op": "idle"})
+    return {"clean": False, "config": {"hmask": 0, "pools": [pcfg]}, "steps": steps}
+
+
+def _lock_run(rng, prop):
+    cls = rng.choice(["T", "T", "S"])
+    pcfg = {"cls": cls, "size": rng.choice([1, 2, 3])}
+    steps = []
+    if cls == "S":
+        pcfg.update({"fk": "sync", "ecb": None, "ccb": None, "sc": [{"g": 1}]})
+        steps.append({"op": "spawn", "p": 0, "r": 1, "kind": "start", "num": rng.choice([2, 3, 5])})
+    else:
+        steps.append({"op": "spawn", "p": 0, "r": 1, "kind": "apply", "num": rng.choice([2, 3, 5]),
+                      "fk": "sync", "sc": [{"g": 1}], "ecb": rng.choice([None, "s"])})
+    steps.append({"op": "run", "n": rng.choice([0, 1, 2, 3, 5])})
+    if prop == "C08" or rng.random() < 0.4:
+        steps.append({"op": "gather", "p": 0, "rex": 0})
+    else:
+        steps.append({"op": "lock", "p": 0})
+        steps.append({"op": "idle"})
+        for k in range(3):
+            steps.append({"op": "gate", "key": ["w", 1, k, 0]})
+        steps.append({"op": "idle"})
+        steps.append({"op": "unlock", "p": 0})
+    steps.append({"op": "idle"})
+    return {"clean": False, "config": {"hmask": 0, "pools": [pcfg]}, "steps": steps}
+
+
+def _triggered(tag, sim):
+    if tag == "F-EARLY":
+        return any(t.early for pc in sim.pools for t in pc.tasks)
+    if tag == "F-LOCK":
+        return any(r.lock_hit for r in sim.reqs.values())
+    return False
 
 
 def exec_unit(prop, arg, agg, order):
-    raise NotImplementedError
-
-
-def replay(prop, payload):
-    raise NotImplementedError
+    tag, seed = arg
+    if tag == "witness":
+        import json
+        import os
+        with open(os.path.join(VERIF, seed)) as f:
+            payload = json.load(f)
+        run = payload["run"]
+        tag = payload["finding"]
+        agg.stats["witness_replayed"] += 1
+    else:
+        rng = random.Random(seed)
+        run = _early_run(rng, prop) if tag == "F-EARLY" else _lock_run(rng, prop)
+        run["prop"] = prop
+        run["seed"] = seed
+        run["hazard"] = tag
+    sim = run_sim(copy.deepcopy(run), {prop})
+    agg.evaluations += 1
+    agg.stats["kind:hazard:" + tag] += 1
+    others = [t for t in FAMILIES if t != tag and _triggered(t, sim)]
+    fired = _triggered(tag, sim) and not others
+    if others:
+        agg.stats["hazard_mixed_triggers"] += 1
+    if fired:
+        agg.stats["hazard_trigger_fired:" + tag] += 1
+        agg.nontrivial.add(int(sim.digest(), 16))
+    if not sim.viol:
+        if fired:
+            agg.stats["hazard_held:" + tag] += 1
+        return
+    seen = set()
+    sig = tag if fired else None
+    for v in sim.viol:
+        if v["prop"] != prop or v["oracle"] in seen:
+            continue
+        seen.add(v["oracle"])
+        rec = {"order": order, "prop": prop, "oracle": v["oracle"], "msg": v["msg"],
+               "run": run, "engine": "pool", "signature": sig}
+        if known_entry(prop, sig, v["oracle"]) is not None:
+            agg.known.setdefault((sig, v["oracle"]), rec)
+            agg.stats["hazard_known:" + tag] += 1
+        elif len(agg.violations) < 12:
+            agg.violations.append(rec)
